@@ -24,7 +24,7 @@ CONSTANTS MaxDecls, Sample, NFiles
 
 Kinds == <<"field", "structfield", "chain", "list", "embed", "let", "attr", "forcomp", "ifcomp", "call",
            "optreq", "def", "mlstring", "binchain", "pattern", "listcomp", "emptystruct", "nestedlist",
-           "callml", "selidx", "interp", "alias", "ellipsis", "dynfield", "unary", "disjml", "mlplain", "mlbytes">>
+           "callml", "selidx", "interp", "alias", "ellipsis", "dynfield", "unary", "disjml", "mlplain", "mlbytes", "chaininline">>
 Seps == <<"comma-space", "newline", "comma-newline">>
 Spaces == <<"one", "none", "many">>
 Slots == {"doc", "line", "in", "end", "between", "colon", "elem", "op"}
